@@ -220,6 +220,10 @@ class AmplitudeChain(ModelDecay):
         :return: array of AmplitudeChains, parameters, constants, event type
         """
 
+        # Particles seen while reading other files must not leak into this read
+        cls.all_particles = set()
+        cls.final_particles = set()
+
         if grammar is None:
             grammar = data.basepath.joinpath("ampgen.lark").read_text()
 
